@@ -88,7 +88,7 @@ PROPS = {
     },
     "C06": {
         "controls": ["FLW-guard"],
-        "rules": [("FLW-1", flw.flw1), ("FLW-10", flw.flw10), ("FLW-11", flw.flw11), ("FLW-12", flw.flw12), ("FLW-8", flw2.flw8), ("FLW-8c", r5.flw8c), ("FLW-8s", r5.flw8s), ("FLW-15", r5.flw15), ("TAB-9", r5.tab9), ("TAB-10", r5.tab10), ("SYN-5", r5.syn5), ("TAB-12", r5.tab12)],
+        "rules": [("FLW-1", flw.flw1), ("FLW-10", flw.flw10), ("FLW-11", flw.flw11), ("FLW-12", flw.flw12), ("FLW-8", flw2.flw8), ("FLW-8c", r5.flw8c), ("FLW-8s", r5.flw8s), ("FLW-15", r5.flw15), ("TAB-9", r5.tab9), ("TAB-10", r5.tab10), ("SYN-5", r5.syn5), ("TAB-12", r5.tab12), ("TAB-15", r5.tab15)],
         "explanation": "FLW-10: in input_match_at a match reported after the scan loop (the word ran out mid-match) is conditioned on `state_index`, i.e. only the trailing boundary may be left unmatched (on the pinned tree it was not: `a x $ > e` rewrote `ka`; repaired, F7). FLW-11: for every element kind of SubRule::input_match_item, the number of times `*state_index` is advanced on a path that ends in a successful match is exactly one, counted structurally over the HIR with summaries of the matchers that receive the index (a matcher that advances inside a loop, the ellipsis, is exempt); on the pinned tree syllable variables and syllables inside sets advanced it twice, so the next element was skipped (`%=1 1 q > *`, `{%,x} q > *`; repaired, F8). FLW-12 (context side): no arm of context_match advances the state index (its callers do), and every index-driven loop around context_match — match_before_env, match_after_env, context_match_ellipsis, context_match_option, match_opt_states, insertion_between — advances it exactly once per matched element. FLW-8: a restarted or new match attempt never sees bindings of an abandoned one. FLW-1 decides the no-write-without-match clause of C06: the four matchers take the word as &Word and Word/Syllable/Segment are Freeze with no "
                        "unaudited unsafe in their call tree, so a failed or partial match cannot have altered it; in SubRule::apply the word is replaced only by "
                        "the result of transform, whose call is reachable only on the non-empty edge of the input match and the true edge of "
@@ -204,7 +204,7 @@ PROPS = {
     },
     "C13": {
         "controls": ["SYN-1", "SYN-2", "SYN-6"],
-        "rules": [("TAB-5", tab2.tab5), ("TAB-6", tab2.tab6), ("TAB-6b", tab2.tab6b), ("SYN-1", tab2.syn1), ("SYN-2", tab2.syn2), ("SYN-3", r5.syn3), ("SYN-4", r5.syn4), ("SYN-6", r5.syn6), ("SYN-7", r5.syn7), ("SYN-8", r5.syn8), ("SYN-9", r5.syn9), ("NRM-1", r5.nrm1)],
+        "rules": [("TAB-5", tab2.tab5), ("TAB-6", tab2.tab6), ("TAB-6b", tab2.tab6b), ("SYN-1", tab2.syn1), ("SYN-2", tab2.syn2), ("SYN-3", r5.syn3), ("SYN-4", r5.syn4), ("SYN-6", r5.syn6), ("SYN-7", r5.syn7), ("SYN-8", r5.syn8), ("SYN-9", r5.syn9), ("TAB-15", r5.tab15), ("NRM-1", r5.nrm1)],
         "explanation": "Decides the table and follow-set clauses of C13: the feature-name synonym tables of the two lexers are equal maps, without "
                        "duplicate or unreachable spellings and covering FEAT_VARIANTS; word-level respellings (Word::to_ipa, Word::new replace chains, "
                        "lexer cur_as_ipa siblings, americanist inverse in render_normal, render marks ⊆ Word::setup tests) equal the manual's tables; every character of the word text that enters a grapheme lookup buffer in Word::fill_segments passes through Word::to_ipa (TAB-6b: the aliases apply at every position, also after `^`); "
